@@ -30,6 +30,7 @@ type paItem struct {
 	MLCerts [][]byte // the certificates inside the SIGNED certList of the master list
 	Trust   [][]byte
 	KS      string
+	After   *paItem // history: this document is verified first, with the SAME trust store object
 }
 
 type paReal struct {
@@ -117,6 +118,15 @@ func paRun(it paItem) (res paReal) {
 		if err := pool.Add(t); err != nil {
 			res.err = "trust store: " + err.Error()
 			return
+		}
+	}
+	if it.After != nil {
+		// the verdict on a document does not depend on which documents the same trust store verified before
+		first := *it.After
+		first.After = nil
+		first.Trust = nil
+		if d0 := paDocOf(first); d0 != nil {
+			_, _ = passiveauth.PassiveAuth(d0, pool)
 		}
 	}
 	r, err := passiveauth.PassiveAuth(doc, pool)
@@ -343,6 +353,57 @@ func paJudge(c *core.Ctx, items []paItem) []paVerdict {
 	return out
 }
 
+// paDocOf builds the document of an item (raw data groups, parsed security objects); nil if it cannot be built.
+func paDocOf(it paItem) *document.Document {
+	doc := &document.Document{}
+	var err error
+	if doc.Mf.Lds1.Sod, err = document.NewSOD(it.SOD); err != nil || doc.Mf.Lds1.Sod == nil {
+		return nil
+	}
+	for n, b := range it.DGs {
+		if n == 1 {
+			if doc.Mf.Lds1.Dg1, err = document.NewDG1(b); err != nil {
+				return nil
+			}
+			continue
+		}
+		if err := replaceDGRaw(doc, n, b); err != nil {
+			return nil
+		}
+	}
+	if it.CardSec != nil {
+		if doc.Mf.CardSecurity, err = document.NewCardSecurity(it.CardSec); err != nil {
+			return nil
+		}
+	}
+	return doc
+}
+
+func replaceDGRaw(doc *document.Document, n int, b []byte) error {
+	l := &doc.Mf.Lds1
+	switch n {
+	case 2:
+		l.Dg2 = &document.DG2{RawData: b}
+	case 7:
+		l.Dg7 = &document.DG7{RawData: b}
+	case 11:
+		l.Dg11 = &document.DG11{RawData: b}
+	case 12:
+		l.Dg12 = &document.DG12{RawData: b}
+	case 13:
+		l.Dg13 = &document.DG13{RawData: b}
+	case 14:
+		l.Dg14 = &document.DG14{RawData: b}
+	case 15:
+		l.Dg15 = &document.DG15{RawData: b}
+	case 16:
+		l.Dg16 = &document.DG16{RawData: b}
+	default:
+		return fmt.Errorf("DG%d", n)
+	}
+	return nil
+}
+
 func scenarioItems(seed int64, ks pki.KeySpec) []paItem {
 	scs, err := pki.Scenarios(seed, ks)
 	if err != nil {
@@ -438,7 +499,33 @@ func C01(c *core.Ctx) {
 				if si > 1 {
 					stride *= 2
 				}
-				items = append(items, byteMutants(it, c.Rand, masks, stride)...)
+				bm := byteMutants(it, c.Rand, masks, stride)
+				items = append(items, bm...)
+				// histories: the genuine document first, then (same trust store object) a document with the same security
+				// object and an altered data group / the altered objects themselves
+				base := it
+				nh := 0
+				for k := len(bm) - 1; k >= 0 && nh < core.Pick(c, 6, 40); k -= 1 + len(bm)/core.Pick(c, 12, 80) {
+					h := bm[k]
+					h.After = &base
+					h.Name += "/after-the-genuine-document"
+					items = append(items, h)
+					nh++
+				}
+			}
+		}
+		// ... and the forgeries that keep the genuine security object
+		for _, it := range sc {
+			if it.Class == "forgery" && it.ML == nil && it.SOD != nil {
+				for _, g := range sc {
+					if g.Name == "genuine/base" && bytes.Equal(g.SOD, it.SOD) {
+						base := g
+						h := it
+						h.After = &base
+						h.Name += "/after-the-genuine-document"
+						items = append(items, h)
+					}
+				}
 			}
 		}
 	}
@@ -550,6 +637,43 @@ func C09(c *core.Ctx) {
 			c.Violation(key, fmt.Sprintf("correctly issued document rejected [%s] %s: %s %s", it.KS, it.Name, v.real.err, v.real.panic), rp)
 		}
 	}
+	// a long-lived trust store that GROWS between verifications (key roll-over, a new master list): document A is
+	// verified, the anchors of document B are added - as DER (Add) or as parsed certificates (AddCerts) - then B
+	grown := 0
+	for i := 0; i+1 < len(items) && grown < core.Pick(c, 24, 200); i++ {
+		a, b := items[i], items[i+1]
+		if a.ML != nil || b.ML != nil || !vs[i].real.accept || !vs[i+1].real.accept || len(a.Trust) == 0 || len(b.Trust) == 0 || bytes.Equal(a.Trust[0], b.Trust[0]) {
+			continue
+		}
+		da, db := paDocOf(a), paDocOf(b)
+		if da == nil || db == nil {
+			continue
+		}
+		for _, how := range []string{"Add", "AddCerts"} {
+			grown++
+			pool := &cms.GenericCertPool{}
+			for _, t := range a.Trust {
+				_ = pool.Add(t)
+			}
+			_, _ = passiveauth.PassiveAuth(da, pool)
+			for _, t := range b.Trust {
+				if how == "Add" {
+					_ = pool.Add(t)
+				} else {
+					tmp := &cms.GenericCertPool{}
+					_ = tmp.Add(t)
+					pool.AddCerts(tmp.All())
+				}
+			}
+			r, err := passiveauth.PassiveAuth(db, pool)
+			c.Case(fmt.Sprintf("store-grows/%s/%s/%s+%s", how, b.KS, a.Name, b.Name), true)
+			if err != nil || r == nil || !r.Success {
+				c.Violation("C09:rejects-genuine-after-the-trust-store-grew:"+how, fmt.Sprintf("correctly issued document [%s] %s rejected by a trust store that had verified another document before its anchors were added with %s: %v", b.KS, b.Name, how, err),
+					map[string]any{"first": a.Name, "second": b.Name, "how": how, "keyspec": b.KS})
+			}
+		}
+	}
+	c.Extra["trust_store_growth_histories"] = grown
 	c.Extra["items"] = len(items)
 	c.Extra["issued_genuine_items_whose_facts_are_not_Genuine"] = notGenuineFacts
 	c.Sample(map[string]any{"name": items[0].Name, "keyspec": items[0].KS, "real_accept": vs[0].real.accept, "facts_genuine": vs[0].genuine})
